@@ -74,6 +74,11 @@ CLAIMED = {
   note="Trusted: Go type checker, go/ssa, the layout extractor and the explorer.",
   technique="byte-layout writer/reader agreement + path-sensitive SSA must-log-before-release analysis, custom checker",
   ref="DESIGN.md section 4 C07"),
+ "C16": dict(
+  text="Static analysis of the compaction code: publish-before-retire ordering of the commit step (reported as a known finding: inputs are removed before the rename; reproduced with a crash image) and no file removal elsewhere in a compaction; test-and-set serialisation of compactions under the Aof mutex with the flag cleared on every exit (deferred closure inlined); only files strictly behind the current append index become inputs; the callback drops a record only when its database is gone or HasLock is false and copies value blobs iff announced; commit only after an error-free load with the temporary file flushed and closed. State equality before/after and racing appends need a run and are not decided, hence 'other'.",
+  note="Trusted: Go type checker, go/ssa, the explorer (closures inlined); os.Rename atomicity.",
+  technique="path-sensitive SSA ordering/typestate analysis of file-system effects (must-precede, test-and-set, drop-only-if guard), custom checker",
+  ref="DESIGN.md section 4 C16"),
 }
 
 NA = {
